@@ -363,6 +363,7 @@ def run(ctx):
         unit_histories(ctx, mode)
         from harness.props import c02_units as U
         U.unit_canon(ctx)
+        U.unit_fuzzy_witness(ctx)
         U.unit_fuzzy(ctx)
         U.unit_determinism(ctx)
         U.unit_sensitivity(ctx)
